@@ -104,6 +104,33 @@ func (j *judge) explore(nodes map[string]*node, bp BatchProject, seed, pidx uint
 				}
 			}
 		}
+		// client quirks: the same well-formed request with a charset parameter on its content type, an
+		// unrelated query key, an unrelated header, its first scalar query key sent twice with the same value,
+		// no Content-Type at all (each alone, then the first three together on an adventurous request)
+		for _, qk := range []string{"ctype-charset", "extra-query", "extra-header", "dup-query-same", "no-ctype"} {
+			p := pl.build(ri, "valid-quirk", nil, false)
+			if (qk == "ctype-charset" || qk == "no-ctype") && p.CType == "" {
+				continue
+			}
+			if qk == "dup-query-same" && p.DupQuery == "" {
+				continue
+			}
+			p.Quirks = []string{qk}
+			if qk == "no-ctype" {
+				// whether a body without a declared media type still "carries" a form field / JSON body is not
+				// decided by C05's statement: the outcome is not judged, the five engines must still agree (C12)
+				p.Expect.Outcome, p.Expect.Args, p.Expect.Why = "unjudged", nil, "body sent without a Content-Type"
+			}
+			add(p)
+		}
+		{
+			p := pl.build(ri, "valid-quirk", nil, true)
+			p.Quirks = []string{"extra-query", "extra-header"}
+			if p.CType != "" {
+				p.Quirks = append([]string{"ctype-charset"}, p.Quirks...)
+			}
+			add(p)
+		}
 		// body delivered in chunks
 		for _, prm := range rt.M.Params {
 			if prm.Loc == "body" || prm.Loc == "form" {
@@ -183,9 +210,9 @@ func (j *judge) explore(nodes map[string]*node, bp BatchProject, seed, pidx uint
 			add(p)
 		}
 		// nil pointer / nil slice / empty slice results (JSON encoding must agree across engines)
-		if rt.M.Ret == "value" && (rt.M.RetType.Ptr || rt.M.RetType.Slice) {
-			for _, js := range []string{"null", "[]"} {
-				if js == "[]" && !rt.M.RetType.Slice {
+		if rt.M.Ret == "value" && (rt.M.RetType.Ptr || rt.M.RetType.Slice || rt.M.RetType.Map) {
+			for _, js := range []string{"null", "[]", "{}"} {
+				if (js == "[]" && !rt.M.RetType.Slice) || (js == "{}" && !rt.M.RetType.Map) {
 					continue
 				}
 				p := pl.build(ri, "controller-script", nil, false)
